@@ -1,8 +1,8 @@
 package checks
 
 import (
-	"github.com/DrmagicE/gmqtt/server"
 	"fmt"
+	"github.com/DrmagicE/gmqtt/server"
 	"math/rand/v2"
 
 	"verifsim/mqttc"
@@ -113,6 +113,7 @@ func genC03(rng *rand.Rand, tier string) *sim.Plan {
 	fin.Ack = ""
 	ph.Ops = append(ph.Ops, fin)
 	p.Phases = append(p.Phases, ph)
+	maybeRedis(rng, p, 0.2)
 	return p
 }
 
